@@ -47,6 +47,21 @@ def free_names(text):
 def derive(ctx, rng):
     from d42.utils import make_required
     r = rng.random()
+    if r < 0.07:
+        # unions built with the | operator, in every association (the text must rebuild an equal schema)
+        from ..combine import union_spec
+        ops = [gen_spec(rng, PROF, depth=rng.randint(0, 1)) for _ in range(rng.choice((2, 3, 4)))]
+        built = [O.try_build(ctx, s) for s in ops]
+        if any(b is None for b in built):
+            return None
+        if len(built) == 2:
+            comb = built[0] | built[1]
+        elif len(built) == 3:
+            comb = rng.choice((lambda a, b, c: (a | b) | c, lambda a, b, c: a | (b | c)))(*built)
+        else:
+            comb = rng.choice((lambda a, b, c, d: (a | b) | (c | d), lambda a, b, c, d: a | (b | (c | d)),
+                               lambda a, b, c, d: ((a | b) | c) | d))(*built)
+        return union_spec(*ops), comb, "or"
     if r < 0.8:
         spec = gen_spec(rng, PROF)
         # refinements are declared in a random order (the DSL accepts any order, C11): the text must not depend on it
